@@ -86,7 +86,7 @@ PROPS = {
     },
     "C08": {
         "modules": ["PgBifrost.Props.C08"],
-        "components": ["filter", "clifilter"],
+        "components": ["filter", "clifilter", "e2e"],
         "required_theorems": ["PgBifrost.Props.C08.filter_iff", "PgBifrost.Props.C08.cli_filter_correct"],
         "assumptions": ["regexp matching is Go's regexp (parameter of the model)", "at most one of the four options is given",
                         "a TRUNCATE of several tables is filtered on the relation text as test_decoding prints it (the whole list)"],
@@ -190,7 +190,7 @@ PROPS = {
     },
     "C18": {
         "modules": ["PgBifrost.Props.C18"],
-        "components": ["client"],
+        "components": ["client", "clientload"],
         "required_theorems": ["PgBifrost.Props.C18.keepalive_reply_before_next_read",
                               "PgBifrost.Props.C18.status_gap_bounded"],
         "partial": "durations are proved in a logical-time timer sub-model (firing visible when due, handling takes no "
